@@ -376,7 +376,12 @@ def gen_stop_sweep(seed: int, n: int) -> List[Scn]:
         endless = rng.random() < 0.4
         for pos in range(len(base) + 1):
             steps = base[:pos] + [["stop"]] + base[pos:]
-            if endless:
+            if endless and W >= 0 and rng.random() < 0.5:
+                # completions DURING the drain wait must not restart the timeout
+                for _ in range(rng.randint(1, 3)):
+                    steps += [["adv_rel", rng.randint(1, max(1, W - 1))], ["fin_any", 0, "ret"]]
+                steps += [["adv_rel", 2 * W + 10]]
+            elif endless:
                 steps += [["adv_rel", max(W, 0) + 8]]
             else:
                 steps += [["adv_rel", 2], ["fin_all", "ret"], ["adv_rel", max(W, 0) + 6]]
